@@ -4,7 +4,8 @@
   quantifies over all interleavings of main-thread, worker and environment transitions, including spurious wake-ups and
   expiry of the timed wait). Proofs are in Lemmas/MtDec*.lean.
 -/
-import XzVerif.Lemmas.MtDecAlloc2
+import XzVerif.Lemmas.MtDecProgress3
+import XzVerif.Lemmas.MtDecMem
 import XzVerif.Gen.C07
 
 namespace XzVerif.C07
@@ -64,16 +65,11 @@ theorem mtdec_failed_not_free (cfg : Cfg) (blocks : List Block) (hwf : WFInput b
   ⟨h.2.2.2.1, h.2.1, h.2.2.2.2⟩
 
 /-- **Output prefix.** Under every schedule, whatever has been delivered to the application is a prefix of what the
-    single-threaded decoder delivers for the same input. Holds with and without LZMA_FAIL_FAST. -/
+    single-threaded decoder delivers for the same input. Holds with and without LZMA_FAIL_FAST (with it the status may come
+    earlier and need not be the single-threaded one; nothing more is claimed for that mode). -/
 theorem mtdec_output_prefix (cfg : Cfg) (blocks : List Block) (hwf : WFInput blocks) (s : State)
     (hr : Reachable cfg blocks s) : s.delivered <+: stOutput blocks :=
   (GInv.reachable hwf hr).pre
-
-/-- With fail-fast the status may come earlier, but the output is still a prefix of the correct data. -/
-theorem mtdec_failfast_prefix (cfg : Cfg) (blocks : List Block) (hwf : WFInput blocks) (hff : cfg.failFast = true)
-    (s : State) (hr : Reachable cfg blocks s) : s.delivered <+: stOutput blocks := by
-  have _ := hff
-  exact mtdec_output_prefix cfg blocks hwf s hr
 
 /-- **Final equivalence.** Without LZMA_FAIL_FAST, under every schedule: if stream_decode_mt has returned a final value `r`
     (anything but LZMA_OK / LZMA_TIMED_OUT), then `r` is the single-threaded decoder's status and the delivered bytes are
@@ -143,72 +139,97 @@ def AllBlocked (s : State) : Prop :=
   (∃ k w, s.pc = .rowWait k w ∧ s.mwoken = false) ∧
   ∀ i, i < s.workers.length → ((getW s i).pc = .wait ∧ (getW s i).woken = false) ∨ (getW s i).pc = .exited
 
-/-- **Deadlock freedom (full statement, not proved).** No reachable state has every thread blocked. What is missing for the
-    proof: (1) the invariant that every unfinished outbuf in the queue has an owning worker, (2) that the head's owner has its
-    partial update enabled and has published everything it decoded, (3) a progress assumption on the Block decoder (the model
-    lets `wDecode` return LZMA_OK at the verdict position indefinitely). With these, `mtdec_no_deadlock_partial` closes the
-    argument: the head's owner either is the last worker, and then the main thread would be `stalled`, or has all its input. -/
-def mtdec_no_deadlock_statement : Prop :=
-  ∀ (cfg : Cfg) (blocks : List Block), WFInput blocks → ∀ s, Reachable cfg blocks s → ¬ AllBlocked s
+/-- **Deadlock freedom.** Under every schedule, in every reachable state other than the final one (lzma_end completed) some
+    transition is enabled that is neither a spurious wake-up nor the expiry of a timed wait; and unless the main thread is
+    back in the application (`idle`, where the application's next lzma_code / lzma_end is that transition) it is a transition
+    of the library itself. So the library never depends on a timeout to get going again, with any `timeout` setting. -/
+theorem mtdec_no_deadlock (cfg : Cfg) (blocks : List Block) (hwf : WFInput blocks) (s : State)
+    (hr : Reachable cfg blocks s) (hne : s.pc ≠ .ended) :
+    ∃ l s', step s l = some s' ∧ l.isExpiry = false ∧ (s.pc ≠ .idle → l.isApp = false) := by
+  obtain ⟨l, s', hs, he⟩ := progress hwf hr hne
+  refine ⟨l, s', hs, he, ?_⟩
+  intro hi
+  cases l <;> first | rfl | (exfalso; simp only [step] at hs; revert hs; simp [hi])
 
-/-- What is proved about blocked states: if every thread is blocked then the queue is non-empty, its head is unfinished and
-    completely read out, the last worker (if it has partial updates on) has unconsumed input published, the next Block (if
-    asked for) cannot start, and every waiting worker is idle or has consumed all the input it was given with no partial-update
-    request pending. In particular a signal can be missing for none of them (that is `mtdec_no_lost_wakeup`). -/
-theorem mtdec_no_deadlock_partial (cfg : Cfg) (blocks : List Block) (hwf : WFInput blocks) (s : State)
-    (hr : Reachable cfg blocks s) (hb : AllBlocked s) :
-    (∃ k, MainIdle s k) ∧
-    ∀ i, i < s.workers.length → (getW s i).pc = .exited ∨ (getW s i).st = .idle ∨
-      ((getW s i).st = .run ∧ (getW s i).inFilled = (getW s i).inPos ∧ (getW s i).pu ≠ .start) := by
-  obtain ⟨⟨k, w, hp, hm⟩, hws⟩ := hb
-  have h := mtdec_no_lost_wakeup cfg blocks hwf s hr
-  refine ⟨⟨k, h.2 k w hp hm⟩, ?_⟩
-  intro i hi
-  rcases hws i hi with ⟨h1, h2⟩ | h1
-  · exact Or.inr (h.1 i hi h1 h2)
-  · exact Or.inl h1
+/-- The all-blocked state is unreachable: whenever the main thread waits un-signalled in read_output_and_wait, some worker
+    is neither waiting un-signalled nor exited (namely the owner of the head outbuf, `head_owner_not_blocked`). -/
+theorem mtdec_not_all_blocked (cfg : Cfg) (blocks : List Block) (hwf : WFInput blocks) (s : State)
+    (hr : Reachable cfg blocks s) : ¬ AllBlocked s := by
+  rintro ⟨⟨k, w, hp, hm⟩, hws⟩
+  obtain ⟨i, hi, h1, h2⟩ := some_worker_runs hwf hr hp hm
+  rcases hws i hi with e | e
+  · exact h1 e
+  · exact h2 e
 
-/-- Early lzma_end is safe: the model reaches `ended` only after every worker has been joined, i.e. has exited, and from an
-    exited worker no transition is enabled (nothing touches the freed structures). -/
-theorem mtdec_end_safe (s s' : State) (hs : step s .endJoin = some s') (hp : s'.pc = .ended) :
-    ∀ i, i < s.workers.length → ∃ j, s.pc = .endJoin j .final ∧ s.workers.length ≤ j := by
-  intro i _
-  simp only [step] at hs
-  split at hs
-  case h_2 => cases hs
-  rename_i j k hpc
-  split at hs
-  · split at hs
-    · cases hs; cases hp
-    · cases hs
-  · rename_i hlen
-    cases k
-    · cases hs; cases hp
-    · exact ⟨j, hpc, Nat.le_of_not_lt hlen⟩
+/-- Every worker that has not exited and is not waiting un-signalled has an enabled transition (a worker never blocks
+    anywhere but in its cond_wait). -/
+theorem mtdec_worker_progress (cfg : Cfg) (blocks : List Block) (hwf : WFInput blocks) (s : State)
+    (hr : Reachable cfg blocks s) (i : Nat) (hi : i < s.workers.length) (hx : (getW s i).pc ≠ .exited)
+    (hw : ¬((getW s i).pc = .wait ∧ (getW s i).woken = false)) :
+    ∃ l s', step s l = some s' ∧ l.isExpiry = false :=
+  worker_can_step (blk_wf_of_reachable hwf hr) (PrivInv.reachable hwf hr) i hi hx hw
 
-/-- **Memory accounting (statement, not proved; checked at run time).** coder->mem_in_use is the sum of `memThr` over the
-    workers that own an outbuf, and together with the queue's outbuf memory it never exceeds memlimit_threading. The trace
-    inclusion compares the model's `memInUse` with the implementation's counter at every Block start (event 109) and the
-    can-start decision at every read_output_and_wait exit (event 134). -/
-def mtdec_mem_statement : Prop :=
-  ∀ (cfg : Cfg) (blocks : List Block), WFInput blocks → ∀ s, Reachable cfg blocks s → exitCode s = none →
-    s.memInUse = ((List.range s.workers.length).filter (fun i => (getW s i).hasOut)).foldl
-      (fun a i => a + (blk s (getW s i).blk).memThr) 0 ∧
-    s.memInUse + outqMem s ≤ cfg.memLimit
+/-- What a blocked main thread sees (the content of `mtdec_no_lost_wakeup`, repackaged; kept because the trace inclusion
+    checks exactly these conditions at every cond_wait of the C code). -/
+theorem mtdec_blocked_main_view (cfg : Cfg) (blocks : List Block) (hwf : WFInput blocks) (s : State)
+    (hr : Reachable cfg blocks s) (k : RowK) (w : Bool) (hp : s.pc = .rowWait k w) (hm : s.mwoken = false) :
+    MainIdle s k := (mtdec_no_lost_wakeup cfg blocks hwf s hr).2 k w hp hm
 
-/-- **Truncated input (statement, not proved in Lean; the direct oracle checks it on every truncated file).** If the
-    application stops supplying input in the middle of a Block and keeps calling, only finitely many calls return LZMA_OK with
-    progress; after that the main thread no longer waits (`stalled`) and lzma_code's wrapper returns LZMA_BUF_ERROR. The
-    wrapper's no-progress counter is not part of this model (C11). The model-level half that IS proved is
-    `mtdec_no_lost_wakeup`: when the last worker has consumed and published all it was given, the main thread does not wait. -/
-def mtdec_truncated_input_statement : Prop :=
-  ∀ (cfg : Cfg) (blocks : List Block), WFInput blocks → ∀ s, Reachable cfg blocks s →
-    ∀ k w, s.pc = .rowWait k w → s.mwoken = false → stalled s = false
+/-- **Early lzma_end is safe.** Under every schedule: (1) while threads_end is joining worker `j`, every worker has been
+    told to exit and all workers below `j` have exited; (2) an exited worker has no enabled transition, and while joining the
+    main thread's only transition is the join itself, so nothing touches the structures of a joined worker; (3) the final
+    state, in which the worker array and the queue are freed, is entered only when every worker has exited. -/
+theorem mtdec_end_safe (cfg : Cfg) (blocks : List Block) (s : State) (hr : Reachable cfg blocks s) :
+    (∀ j k, s.pc = .endJoin j k →
+        (∀ i, i < s.workers.length → (getW s i).st = .exit) ∧
+        (∀ i, i < j → i < s.workers.length → (getW s i).pc = .exited) ∧
+        (∀ l s', step s l = some s' → l = .endJoin ∨ (l.worker?).isSome = true)) ∧
+    (∀ i l, l.worker? = some i → (getW s i).pc = .exited → step s l = none) ∧
+    (∀ s', step s .endJoin = some s' → s'.pc = .ended → ∀ i, i < s.workers.length → (getW s i).pc = .exited) := by
+  have hE := EndInv.reachable hr
+  refine ⟨?_, ?_, ?_⟩
+  · intro j k hp
+    exact ⟨(hE.join j k hp).1, (hE.join j k hp).2, fun l s' hs => joining_only_workers hp hs⟩
+  · intro i l hl hp
+    exact exited_stuck hl hp
+  · intro s' hs hp i hi
+    simp only [step] at hs
+    split at hs
+    case h_2 => cases hs
+    rename_i j k hpc
+    split at hs
+    · split at hs
+      · cases hs; cases hp
+      · cases hs
+    · rename_i hlen
+      exact (hE.join j k hpc).2 i (by omega) hi
 
-/-- The part of the truncated-input statement that follows from the wake-up invariant. -/
-theorem mtdec_truncated_input_partial : mtdec_truncated_input_statement := by
-  intro cfg blocks hwf s hr k w hp hm
-  exact ((mtdec_no_lost_wakeup cfg blocks hwf s hr).2 k w hp hm).2.2.1
+/-- **Memory bound.** Under every schedule coder->mem_in_use plus the memory of the queued outbufs — plus, between the
+    moment read_output_and_wait admits the next Block and the moment its outbuf is queued, what that Block will take
+    (`pendMem`) — never exceeds memlimit_threading. Hence the subtraction `memlimit_threading - mem_in_use - outq.mem_in_use`
+    in the can-start test never wraps (second conjunct), which is what makes the model's natural-number arithmetic agree with
+    the C code's uint64_t arithmetic. (That mem_in_use is exactly the sum over the busy and failed workers is not proved; the
+    trace inclusion compares the model's `memInUse` with the implementation's counter at every Block start, event 109, and the
+    can-start decision at every read_output_and_wait exit, event 134.) -/
+theorem mtdec_mem_bound (cfg : Cfg) (blocks : List Block) (s : State) (hr : Reachable cfg blocks s) :
+    s.memInUse + outqMem s + pendMem s ≤ s.cfg.memLimit ∧
+    (s.cfg.memLimit - s.memInUse - outqMem s) + s.memInUse + outqMem s = s.cfg.memLimit := by
+  have h : MemInv s := MemInv.reachable hr
+  unfold MemInv at h
+  refine ⟨h, ?_⟩
+  omega
+
+/-- **The main thread never waits while the last worker is stalled.** `stalled` is the model's rendering of the rule
+    "thr->in_filled == decoder_in_pos published by the worker and no output to read": in that situation
+    read_output_and_wait returns instead of waiting, so an application that stops supplying input in the middle of a Block gets
+    control back (LZMA_OK without progress; the LZMA_BUF_ERROR after repeated no-progress calls is produced by lzma_code's
+    wrapper, which is C11's model, not this one). The full clause of the property text — finitely many LZMA_OK, then
+    LZMA_BUF_ERROR — is NOT proved in Lean; the direct oracle checks it on every truncated file and with the pause/poll
+    slicing. -/
+theorem mtdec_no_wait_when_stalled (cfg : Cfg) (blocks : List Block) (hwf : WFInput blocks) (s : State)
+    (hr : Reachable cfg blocks s) (k : RowK) (w : Bool) (hp : s.pc = .rowWait k w) (hm : s.mwoken = false) :
+    stalled s = false :=
+  ((mtdec_no_lost_wakeup cfg blocks hwf s hr).2 k w hp hm).2.2.1
 
 -- ---------------------------------------------------------------------------------------------
 -- non-vacuity: the hypotheses are satisfiable and multi-Block states with several workers in flight are reachable
